@@ -132,6 +132,7 @@ func runC04(c *Ctx) {
 	hl := `call<strings.LastIndex>(p0, "1")`
 	lower := "call<strings.ToLower>(p0)"
 	data := "ext#0(call<*>(load(global<repo/pkg/bech32.charset>), slice(" + lower + ", bin<+>(" + hl + ", 1), none)))"
+	_, _, caseIdx := caseGate(c, b)
 	decStatus := "ext#1(call<*>(load(global<repo/pkg/bech32.charset>), slice(" + lower + ", bin<+>(" + hl + ", 1), none)))"
 	type gate struct {
 		name   string
@@ -143,7 +144,7 @@ func runC04(c *Ctx) {
 		{"separator-present", []string{"bin<!=>(" + hl + ", -1)"}, []string{"bin<==>(" + hl + ", -1)"}},
 		{"hrp-nonempty", []string{"bin<>=>(" + hl + ", 1)", "bin<!=>(" + hl + ", 0)"}, []string{"bin<<>(" + hl + ", 1)", "bin<==>(" + hl + ", 0)"}}, // with separator-present (hl != -1): hl != 0 ⟺ hl >= 1
 		{"six-symbols-after-separator", []string{"bin<<>(bin<->(" + hl + ", len(p0)), -5)"}, []string{"bin<>=>(bin<->(" + hl + ", len(p0)), -5)"}},  // canonical form of hrpLen+6 <= len(s)
-		{"single-case", []string{"bin<==>(call<*>(p0), nil)"}, []string{"bin<!=>(call<*>(p0), nil)"}},
+		{"single-case", caseAccept("*", caseIdx), caseReject("*", caseIdx)},
 		{"charset", []string{"bin<==>(" + decStatus + ", nil)"}, []string{"bin<!=>(" + decStatus + ", nil)"}},
 		{"checksum-length", []string{"bin<>=>(len(" + data + "), 6)"}, []string{"bin<<>(len(" + data + "), 6)"}},
 		// through the verification routine, or written out: polymod(expand(hrp) ‖ data) == 1 (the routines are decided under C16)
@@ -270,10 +271,46 @@ func runC04(c *Ctx) {
 	c04Bounds(c, fn, b)
 }
 
+// caseGate resolves the case-validation routine tested on the argument of b's function and the form of its verdict:
+// an error (`f(s) == nil` accepts), or the offending position with -1 for a consistent case (`f(s) < 0` accepts).
+func caseGate(c *Ctx, b *ana.Builder) (vc *ssa.Function, uniq, idxForm bool) {
+	vc, uniq = uniqueCallee(edgesMatching(b, "bin<==>(call<*>(p0), nil)"))
+	if vc != nil {
+		return vc, uniq, false
+	}
+	vc, uniq = uniqueCallee(edgesMatching(b, "bin<<>(call<*>(p0), 0)", "bin<==>(call<*>(p0), -1)"))
+	if vc != nil && vc.Signature.Results().Len() == 1 && types.Identical(vc.Signature.Results().At(0).Type(), types.Typ[types.Int]) && vc.Blocks != nil {
+		return vc, uniq, true
+	}
+	return nil, false, false
+}
+
+// caseAccept / caseReject: the gate literals for the routine named by pattern fn ("*" for any).
+func caseAccept(fn string, idxForm bool) []string {
+	if idxForm {
+		return []string{"bin<<>(call<" + fn + ">(p0), 0)", "bin<==>(call<" + fn + ">(p0), -1)"}
+	}
+	return []string{"bin<==>(call<" + fn + ">(p0), nil)"}
+}
+
+func caseReject(fn string, idxForm bool) []string {
+	if idxForm {
+		return []string{"bin<>=>(call<" + fn + ">(p0), 0)", "bin<!=>(call<" + fn + ">(p0), -1)"}
+	}
+	return []string{"bin<!=>(call<" + fn + ">(p0), nil)"}
+}
+
+// c04CaseIdx is the case routine when it reports the offending position (set by c04Case).
+var c04CaseIdx *ssa.Function
+
 func c04Case(c *Ctx, fn *ssa.Function, b *ana.Builder) {
 	r := c.R
 	// the single-case gate is a wildcard pattern (`f(s) == nil`): every edge it matches must call the one routine decided here
-	vc, uniq := uniqueCallee(edgesMatching(b, "bin<==>(call<*>(p0), nil)"))
+	vc, uniq, idxForm := caseGate(c, b)
+	c04CaseIdx = nil
+	if idxForm {
+		c04CaseIdx = vc
+	}
 	if vc == nil || !uniq {
 		r.Undec("C04.exits.case-helper", c.P.Pos(fn.Pos()), "case validation helper not found, or several different routines are tested against nil on the argument")
 		return
@@ -335,7 +372,12 @@ func c04Case(c *Ctx, fn *ssa.Function, b *ana.Builder) {
 			good = false
 			continue
 		}
-		isErr := !vb.Of(e.Results[0], e.Instr).Is("nil")
+		res := vb.Of(e.Results[0], e.Instr)
+		isErr := !res.Is("nil")
+		if idxForm {
+			k, isInt := res.Int()
+			isErr = !(isInt && k == -1)
+		}
 		for idx := range sets[e.Instr.Block()] {
 			t := ana.TupleOf(tuples, idx)
 			if t[0] == t[1] && t[0] >= 0 {
@@ -349,6 +391,10 @@ func c04Case(c *Ctx, fn *ssa.Function, b *ana.Builder) {
 		if isErr {
 			// offset = the later of the two positions, which is < len(s)
 			ot, _ := ana.Find("store(faddr<Offset>(self), $o)", vb.Of(e.Results[0], e.Instr))
+			if idxForm {
+				// the reported position is itself one of the two probe positions (non-negative on this exit)
+				ot = &ana.Term{Op: "store", Args: []*ana.Term{nil, stripObj(res)}}
+			}
 			r.Check(ot != nil && (ot.Arg(1).String() == up || ot.Arg(1).String() == lo), "C04.offset-range.mixed-case", c.ipos(e.Instr), "mixed-case offset is one of the two probe positions (an index of s)")
 		}
 	}
@@ -628,6 +674,15 @@ func c04BoundsIn(c *Ctx, fn *ssa.Function, b *ana.Builder, entry map[int]bool, d
 				if _, ok := ana.MatchAny(vt, "ind<+1>(0)", "ext#1(next(range(_)))"); ok {
 					r.OK("C04.offset-range.loop-index", c.ipos(x), "offset is the index of a loop over the string or its prefix (< len(s))")
 					continue
+				}
+				// the position the case routine reported (one of its two probe positions, C04.offset-range.mixed-case), stored only
+				// when it reported one
+				if call := stripObj(vt); call.Op == "call" && len(call.Args) == 1 && c04CaseIdx != nil && calleeOf(call) == c04CaseIdx && call.Args[0].IsParam(0) {
+					guard := plainEdges(edgesMatching(b, "raw:bin<>=>("+termPat(call)+", 0)", "raw:bin<!=>("+termPat(call)+", -1)"))
+					if mustPass(fn, blk, guard) {
+						r.OK("C04.offset-range.loop-index", c.ipos(x), "offset is the position the case routine reported (< len(s))")
+						continue
+					}
 				}
 				// a position reported by a first-violation scanner over the string or a prefix of it, stored only when one was found
 				if call := stripObj(vt); call.Op == "call" && len(call.Args) == 1 {
